@@ -40,6 +40,7 @@ pub fn spec(id: &str) -> Spec {
             p.w_conf = 10;
             p.priority_pm = 300;
             p.election_adversary_pm = 500;
+            p.conf_heavy_pm = 600;
             Spec { profile: p, quick_runs: 60_000, thorough_runs: thorough, nontrivial: |s, _| g(s, "leaders_elected") >= 3,
                 rule: ">= 3 leaders elected (distinct terms) in the run" }
         }
